@@ -262,6 +262,23 @@ def traits_witness(chk):
         chk.analysis_broken("W-TRAITS: only %d char_traits obligations" % len(tu.obl))
 
 
+def exit_rule(chk, db, floor=6):
+    """EXIT over the searches of basic_string_view and etl::strings (see rules/exits.py)"""
+    from ..rules import exits
+    n = 0
+    for fam in exits.FAMILIES:
+        for f in db.by_q.get(VIEW + "::" + fam, []):
+            if f.get("body") is not None and f["params"] and "basic_string_view" in f["params"][0]["ty"]:
+                pn = f["params"][1]["n"] if len(f["params"]) > 1 else "pos"
+                n += exits.check_function(chk, db, f, fam, pn, "size(%s)" % f["params"][0]["n"], "size(this)")
+    for fam in ("find", "rfind"):
+        for f in db.by_q.get("etl::strings::" + fam, []):
+            if f.get("body") is not None and len(f["params"]) == 3 and "basic_string_view" in f["params"][1]["ty"]:
+                n += exits.check_function(chk, db, f, fam, f["params"][2]["n"], "size(%s)" % f["params"][1]["n"], "size(%s)" % f["params"][0]["n"])
+    if n < floor:
+        chk.analysis_broken("EXIT: only %d early exits of the search functions found (floor %d)" % (n, floor))
+
+
 META_EXTRA = 'NULFREE; pointer-formation obligations and counting-loop reachability in BOUND; W-TRAITS (char_traits vs std::char_traits at boundary characters).'
 META = (META[0] + " " + META_EXTRA, META[1])
 
@@ -278,6 +295,7 @@ def run(chk, tier):
     compare3(chk, db)
     nulfree_rule(chk, db, VIEW, 60)
     traits_witness(chk)
+    exit_rule(chk, plain)
     # BOUND over every public member (plain configuration: bounds must hold without relying on a check firing)
     svf = [f for f in plain.funcs_of_record(VIEW) if f.get("kind") == "method" and f.get("access") == "public"]
     if len(svf) < 40:
